@@ -46,10 +46,10 @@ def _data_object(it, st, prog, required, node):
     return it.new(st, "obj", node, slots=slots, meta={"iodata": True}, tag=VV)
 
 
-def check_required_truthfulness(ctx):
+def check_required_truthfulness(ctx, rid="R4"):
     prog = ctx.prog
     ce = ConstEval(prog)
-    ctx.rule("R4", "every unguarded dereference of an optional attribute in a writer is declared as required", "an object lacking the attribute fails with DumpError after the existing file was truncated, instead of a clean PrepareDumpError")
+    ctx.rule(rid, "every unguarded dereference of an optional attribute in a writer is declared as required", "an object lacking the attribute fails with DumpError after the existing file was truncated, instead of a clean PrepareDumpError")
     decls = [d for d in declared_lists(prog, ce) if DOC_DECORATORS[d[2]] == "dump" and d[1].name == "dump_one"]
     nw = 0
     for mod, f, dname, lists, dnode, fmt in decls:
@@ -87,7 +87,7 @@ def check_required_truthfulness(ctx):
                     continue
                 seen.add(key)
                 flagged = True
-                ctx.violate("R4", f"{mod.short} writer: optional attribute `{nm}` is {how} without a None guard (`{src_of(node)[:50]}`), but `{nm}` is not in the required list {required}", func, node, construct=f"{mod.short}: {nm} {how} unguarded")
+                ctx.violate(rid, f"{mod.short} writer: optional attribute `{nm}` is {how} without a None guard (`{src_of(node)[:50]}`), but `{nm}` is not in the required list {required}", func, node, construct=f"{mod.short}: {nm} {how} unguarded")
         if not flagged:
-            ctx.ok("R4", f"{mod.short}: all dereferenced attributes are required ({required}), guarded, or implied", f.where)
-    ctx.floor("R4", nw, 12, "writers")
+            ctx.ok(rid, f"{mod.short}: all dereferenced attributes are required ({required}), guarded, or implied", f.where)
+    ctx.floor(rid, nw, 12, "writers")
